@@ -59,6 +59,7 @@ type Interp struct {
 	paths     int
 	loopIDs   map[ast.Stmt]int
 	infoStack []*types.Info
+	cuts      []*State // paths cut inside inlined functions (loop state repeated)
 }
 
 type State struct {
@@ -236,8 +237,12 @@ func (in *Interp) Run(ftype *ast.FuncType, recv *ast.FieldList, body *ast.BlockS
 			}
 		})
 	}
+	in.cuts = nil
 	for _, r := range in.execBlock(body.List, st) {
 		outs = append(outs, in.outcome(r, ftype))
+	}
+	for _, cs := range in.cuts {
+		outs = append(outs, in.outcome(result{st: cs, c: ctrl(99)}, ftype))
 	}
 	return outs, nil
 }
